@@ -123,7 +123,7 @@ def exc_name(ex):
 def mk_tdm(S, n_events, n_sel, vals):
     tdm = S.Mock(spec_set=['__class__', 'n_events', 'n_selected_events', 'src_evt_idxs',
                            'has_global_fitparam_data_fields', 'n_pure_bkg_events',
-                           'calculate_source_data_fields'])
+                           'calculate_source_data_fields', 'change_shg_mgr'])
     tdm.__class__ = S.TrialDataManager
     tdm.n_events = n_events
     tdm.n_selected_events = n_sel
@@ -134,89 +134,153 @@ def mk_tdm(S, n_events, n_sel, vals):
     return tdm
 
 
-def run_impl(case):
-    """Drive the real classes on one case.  Returns a dict:
-       weights: ('Ok', a_jk rows, f_j) | ('Err', kind)
-       stack:   per dataset ('Ok', R_i) | ('Err', kind) | None
-       multi:   ('Ok', value) | ('Err', kind) ;  single: per dataset value at ns*f_j (or None)"""
-    S = sk()
-    J = case['J']
-    groups = case['groups']
-    out = {'weights': None, 'stack': [], 'multi': None, 'single': []}
-    shgs, allsrc = [], []
-    for g, W in enumerate(groups):
-        srcs = [S.PointLikeSource(name=f'S{g}_{i}', ra=0., dec=0.1, weight=float(w)) for i, w in enumerate(W)]
-        allsrc += srcs
-        shgs.append(S.SourceHypoGroup(
-            sources=srcs, fluxmodel=S.SteadyPointlikeFFM(Phi0=1, energy_profile=None, cfg=S.cfg),
-            detsigyield_builders=S.NoBuilder(cfg=S.cfg), sig_gen_method=None))
-    shg_mgr = S.SourceHypoGroupManager(shgs)
-    pmm = S.ParameterModelMapper(models=allsrc)
-    pmm.map_param(S.Parameter('ns', 1.0, 0, 1e9))
-    arr = np.empty((J, len(groups)), dtype=object)
-    for j in range(J):
-        for g in range(len(groups)):
-            arr[j, g] = S.TableYield(case['Y'][j][g])
-    svc = S.Mock(spec_set=['__class__', 'arr', 'shg_mgr', 'n_datasets', 'n_shgs'])
-    svc.__class__ = S.DetSigYieldService
-    svc.arr = arr
-    svc.shg_mgr = shg_mgr
-    svc.n_datasets = J
-    svc.n_shgs = len(groups)
-    ws = S.SrcDetSigYieldWeightsService(detsigyield_service=svc)
-    fs = S.DatasetSignalWeightFactorsService(src_detsigyield_weights_service=ws)
-    ns = float(case.get('ns', 0.0))
-    fit = np.array([ns], dtype=np.float64)
-    spr = pmm.create_src_params_recarray(fit)
-    with np.errstate(all='ignore'), warnings.catch_warnings():
-        warnings.simplefilter('ignore')
-        try:
-            ws.calculate(spr)
-            fs.calculate()
-            a_jk = ws.get_weights()[0]
-            f = fs.get_weights()[0]
-            assert a_jk.shape == (J, shg_mgr.n_sources) and f.shape == (J,), (a_jk.shape, f.shape)
-            out['weights'] = ('Ok', [[float(x) for x in r] for r in a_jk], [float(x) for x in f])
-        except (ValueError, IndexError, TypeError, KeyError) as ex:
-            out['weights'] = ('Err', exc_name(ex))
+class Stack:
+    """The real objects for one configuration.  `observe()` drives them; `apply(case2)` turns the
+    SAME long-lived objects into another configuration of the same shape (J, group sizes, number of
+    llh ratios) the way an analysis does it: the sources of the SourceHypoGroupManager are re-ordered /
+    re-weighted in place, the (stub) detector yields and trial data are replaced, and the public
+    change_shg_mgr(...) path is called."""
+
+    def __init__(self, case):
+        S = sk()
+        self.S = S
+        self.case = case
+        J = case['J']
+        groups = case['groups']
+        shgs, allsrc = [], []
+        for g, W in enumerate(groups):
+            srcs = [S.PointLikeSource(name=f'S{g}_{i}', ra=0., dec=0.1, weight=float(w)) for i, w in enumerate(W)]
+            allsrc += srcs
+            shgs.append(S.SourceHypoGroup(
+                sources=srcs, fluxmodel=S.SteadyPointlikeFFM(Phi0=1, energy_profile=None, cfg=S.cfg),
+                detsigyield_builders=S.NoBuilder(cfg=S.cfg), sig_gen_method=None))
+        self.shg_mgr = S.SourceHypoGroupManager(shgs)
+        self.pmm = S.ParameterModelMapper(models=allsrc)
+        self.pmm.map_param(S.Parameter('ns', 1.0, 0, 1e9))
+        self.arr = np.empty((J, len(groups)), dtype=object)
+        for j in range(J):
+            for g in range(len(groups)):
+                self.arr[j, g] = S.TableYield(case['Y'][j][g])
+        svc = S.Mock(spec_set=['__class__', 'arr', 'shg_mgr', 'n_datasets', 'n_shgs'])
+        svc.__class__ = S.DetSigYieldService
+        svc.arr = self.arr
+        svc.shg_mgr = self.shg_mgr
+        svc.n_datasets = J
+        svc.n_shgs = len(groups)
+        self.ws = S.SrcDetSigYieldWeightsService(detsigyield_service=svc)
+        self.fs = S.DatasetSignalWeightFactorsService(src_detsigyield_weights_service=self.ws)
+        self.tdms, self.stubs, self.sws, self.lls, self.m, self.m_err = [], [], [], [], None, None
         ds = case.get('ds')
-        if ds is None:
-            return out
-        lls = []
-        for d in ds:
-            tdm = mk_tdm(S, d['N'], d['nsel'], d['vals'])
-            sw = S.SourceWeightedPDFRatio(
-                dataset_idx=d['didx'], src_detsigyield_weights_service=ws,
-                pdfratio=S.StubRatio([v[2] for v in d['vals']], cfg=S.cfg), cfg=S.cfg)
-            if out['weights'][0] == 'Ok':
-                try:
-                    r = sw.get_ratio(tdm, spr)
-                    assert r.shape == (d['nsel'],)
-                    out['stack'].append(('Ok', [float(x) for x in r]))
-                except (ValueError, IndexError) as ex:
-                    out['stack'].append(('Err', exc_name(ex)))
-            else:
-                out['stack'].append(None)
-            lls.append(S.ZeroSigH0SingleDatasetTCLLHRatio(
-                pmm=pmm, minimizer=S.mini, shg_mgr=shg_mgr, tdm=tdm, pdfratio=sw, cfg=S.cfg))
-        try:
-            m = S.MultiDatasetTCLLHRatio(
-                pmm=pmm, minimizer=S.mini, src_detsigyield_weights_service=ws,
-                ds_sig_weight_factors_service=fs, llhratio_list=lls, cfg=S.cfg)
-            (val, grads) = m.evaluate(fit)
-            out['multi'] = ('Ok', float(val))
-            assert grads.shape == (1,)
-        except (ValueError, IndexError) as ex:
-            out['multi'] = ('Err', exc_name(ex))
-        # the single-dataset functions on their own, at ns * f_j  (additivity, implementation level)
-        if out['multi'][0] == 'Ok':
-            f = fs.get_weights()[0]
-            for j, ll in enumerate(lls):
-                try:
-                    out['single'].append(float(ll.evaluate(np.array([ns * f[j]]))[0]))
-                except (ValueError, IndexError):
-                    out['single'].append(None)
-    return out
+        if ds is not None:
+            for d in ds:
+                tdm = mk_tdm(S, d['N'], d['nsel'], d['vals'])
+                stub = S.StubRatio([v[2] for v in d['vals']], cfg=S.cfg)
+                sw = S.SourceWeightedPDFRatio(
+                    dataset_idx=d['didx'], src_detsigyield_weights_service=self.ws, pdfratio=stub, cfg=S.cfg)
+                self.tdms.append(tdm)
+                self.stubs.append(stub)
+                self.sws.append(sw)
+                self.lls.append(S.ZeroSigH0SingleDatasetTCLLHRatio(
+                    pmm=self.pmm, minimizer=S.mini, shg_mgr=self.shg_mgr, tdm=tdm, pdfratio=sw, cfg=S.cfg))
+            try:
+                self.m = S.MultiDatasetTCLLHRatio(
+                    pmm=self.pmm, minimizer=S.mini, src_detsigyield_weights_service=self.ws,
+                    ds_sig_weight_factors_service=self.fs, llhratio_list=self.lls, cfg=S.cfg)
+            except (ValueError, IndexError) as ex:
+                self.m_err = ('Err', exc_name(ex))
+
+    def apply(self, case2, p=None):
+        """same shape required; p = permutation of the flattened sources (new i is old p[i]) or None"""
+        c0 = self.case
+        assert case2['J'] == c0['J'] and [len(g) for g in case2['groups']] == [len(g) for g in c0['groups']]
+        shgl = self.shg_mgr.shg_list
+        objs = [src for shg in shgl for src in shg.source_list]
+        if p is not None:
+            objs = [objs[i] for i in p]
+        k = 0
+        for shg, W in zip(shgl, case2['groups']):
+            shg.source_list[:] = objs[k:k + len(W)]
+            for src, w in zip(shg.source_list, W):
+                src.weight = float(w)
+            k += len(W)
+        for j in range(case2['J']):
+            for g in range(len(case2['groups'])):
+                self.arr[j, g]._t = np.array(case2['Y'][j][g], dtype=np.float64)
+        if case2.get('ds') is not None:
+            assert len(case2['ds']) == len(self.tdms)
+            for d, tdm, stub, sw in zip(case2['ds'], self.tdms, self.stubs, self.sws):
+                assert sw.dataset_idx == d['didx']
+                tdm.n_events = d['N']
+                tdm.n_selected_events = d['nsel']
+                tdm.src_evt_idxs = (np.array([v[0] for v in d['vals']], dtype=np.int64),
+                                    np.array([v[1] for v in d['vals']], dtype=np.int64))
+                tdm.n_pure_bkg_events = d['N'] - d['nsel']
+                stub._v = np.array([v[2] for v in d['vals']], dtype=np.float64)
+        self.case = case2
+        # the public notification path
+        if self.m is not None:
+            self.m.change_shg_mgr(self.shg_mgr)
+        else:
+            self.ws.change_shg_mgr(self.shg_mgr)
+
+    def observe(self):
+        """weights: ('Ok', a_jk rows, f_j) | ('Err', kind)
+           stack:   per dataset ('Ok', R_i) | ('Err', kind) | None
+           multi:   ('Ok', value) | ('Err', kind) ;  single: per dataset value at ns*f_j (or None)"""
+        S, case = self.S, self.case
+        J = case['J']
+        out = {'weights': None, 'stack': [], 'multi': None, 'single': []}
+        ns = float(case.get('ns', 0.0))
+        fit = np.array([ns], dtype=np.float64)
+        spr = self.pmm.create_src_params_recarray(fit)
+        ws, fs = self.ws, self.fs
+        with np.errstate(all='ignore'), warnings.catch_warnings():
+            warnings.simplefilter('ignore')
+            try:
+                ws.calculate(spr)
+                fs.calculate()
+                a_jk = ws.get_weights()[0]
+                f = fs.get_weights()[0]
+                assert a_jk.shape == (J, self.shg_mgr.n_sources) and f.shape == (J,), (a_jk.shape, f.shape)
+                out['weights'] = ('Ok', [[float(x) for x in r] for r in a_jk], [float(x) for x in f])
+            except (ValueError, IndexError, TypeError, KeyError) as ex:
+                out['weights'] = ('Err', exc_name(ex))
+            ds = case.get('ds')
+            if ds is None:
+                return out
+            for d, tdm, sw in zip(ds, self.tdms, self.sws):
+                if out['weights'][0] == 'Ok':
+                    try:
+                        r = sw.get_ratio(tdm, spr)
+                        assert r.shape == (d['nsel'],)
+                        out['stack'].append(('Ok', [float(x) for x in r]))
+                    except (ValueError, IndexError) as ex:
+                        out['stack'].append(('Err', exc_name(ex)))
+                else:
+                    out['stack'].append(None)
+            if self.m is None:
+                out['multi'] = self.m_err
+                return out
+            try:
+                (val, grads) = self.m.evaluate(fit)
+                out['multi'] = ('Ok', float(val))
+                assert grads.shape == (1,)
+            except (ValueError, IndexError) as ex:
+                out['multi'] = ('Err', exc_name(ex))
+            # the single-dataset functions on their own, at ns * f_j  (additivity, implementation level)
+            if out['multi'][0] == 'Ok':
+                f = fs.get_weights()[0]
+                for j, ll in enumerate(self.lls):
+                    try:
+                        out['single'].append(float(ll.evaluate(np.array([ns * f[j]]))[0]))
+                    except (ValueError, IndexError):
+                        out['single'].append(None)
+        return out
+
+
+def run_impl(case):
+    """Drive freshly built real objects on one case (see Stack.observe)."""
+    return Stack(case).observe()
 
 
 # ----------------------------------------------------------------------------- model lines
@@ -783,6 +847,92 @@ def metamorphic(ctx, case, impl, opa, nperm_src, nperm_ds, rng):
                               impl=r2['multi'], model=impl['multi'], predicate='value invariant under W -> c W')
 
 
+# ----------------------------------------------------------------------------- long-lived services
+
+P_CHG = 'SrcDetSigYieldWeightsService.change_shg_mgr'
+
+
+def strip_hist(case):
+    return {k: v for k, v in case.items() if k not in ('history', 'perm')}
+
+
+def run_history(case):
+    """case['history'] = [{'case': c0}, {'case': c1, 'perm': p1}, ...]: ONE set of long-lived objects
+    is built for c0 and taken through every step and finally to `case` itself (case['perm']) by
+    in-place changes + change_shg_mgr; every configuration is evaluated on the way"""
+    h = case['history']
+    st = Stack(h[0]['case'])
+    st.observe()
+    for step in h[1:]:
+        st.apply(step['case'], step.get('perm'))
+        st.observe()
+    st.apply(strip_hist(case), case.get('perm'))
+    return st.observe()
+
+
+def same_obs(a, b):
+    def eq(x, y):
+        if isinstance(x, float) and isinstance(y, float):
+            return close(x, y, 0.0)
+        if isinstance(x, (list, tuple)) and isinstance(y, (list, tuple)):
+            return len(x) == len(y) and all(eq(u, v) for u, v in zip(x, y))
+        return x == y
+    return all(eq(a[k], b[k]) for k in ('weights', 'stack', 'multi'))
+
+
+def long_lived(ctx, case, opa, rng, lines, checks):
+    """re-use one service / ratio / llh-ratio instance across the configuration and its permuted,
+    re-weighted, re-scaled variants; compare with freshly built objects (bit-identical), with the
+    exact oracles and with the model"""
+    if not in_guard(case):
+        return
+    J = case['J']
+    K = len(flat_W(case))
+    variants = []
+    if K >= 2:
+        p = list(range(K))
+        while p == list(range(K)):
+            rng.shuffle(p)
+        variants.append(('source-permutation', perm_sources(case, p), p))
+    rw = strip_hist(case)
+    rw['groups'] = [[logu(rng, -2, 2) for _ in W] for W in case['groups']]
+    variants.append(('new-weights', rw, None))
+    variants.append(('scale', scale_weights(strip_hist(case), 10.0 ** rng.uniform(-3, 3)), None))
+    if J >= 2 and (case.get('ds') is None or all(d['didx'] == j for j, d in enumerate(case['ds']))):
+        q = list(range(J))
+        rng.shuffle(q)
+        variants.append(('dataset-permutation', perm_datasets(case, q), None))
+    variants.append(('back-to-start', strip_hist(case), None))
+    st = Stack(case)
+    st.observe()
+    hist = [{'case': strip_hist(case)}]
+    for tag, c2, p in variants:
+        c2 = strip_hist(c2)
+        try:
+            st.apply(c2, p)
+        except (ValueError, IndexError, AssertionError) as ex:
+            ctx.violation(P_CHG, 'raises-' + exc_name(ex), f'change_shg_mgr path raises ({tag})',
+                          case=dict(c2, history=list(hist), perm=p))
+            return
+        obs = st.observe()
+        fresh = run_impl(c2)
+        ctx.count('long-lived:' + tag)
+        rep = dict(c2, history=list(hist), perm=p)
+        if not same_obs(obs, fresh):
+            ctx.violation(P_CHG, 'long-lived-differs-from-fresh',
+                          f'after {tag} + change_shg_mgr the long-lived objects give {obs["weights"]}, '
+                          f'freshly built ones {fresh["weights"]}',
+                          case=rep, impl={k: obs[k] for k in ('weights', 'stack', 'multi')},
+                          model={k: fresh[k] for k in ('weights', 'stack', 'multi')},
+                          predicate='long-lived service after change_shg_mgr == freshly constructed service')
+        predicates_weights(ctx, rep, obs)
+        if c2.get('ds') is not None:
+            predicates_stack(ctx, rep, obs)
+            predicates_multi(ctx, rep, obs, opa)
+        queue_model(rep, obs, opa, lines, checks)
+        hist.append({'case': c2, 'perm': p})
+
+
 # ----------------------------------------------------------------------------- correspondence
 
 def queue_model(case, impl, opa, lines, checks):
@@ -862,15 +1012,19 @@ def process(ctx, cases, opa, meta_budget, rng, exe):
     lines, checks = [], []
     for c in cases:
         ctx.case(c, nontrivial=in_guard(c))
-        impl = run_impl(c)
+        impl = run_history(c) if c.get('history') else run_impl(c)
         queue_model(c, impl, opa, lines, checks)
         predicates_weights(ctx, c, impl)
         if c.get('ds') is not None:
             predicates_stack(ctx, c, impl)
             predicates_multi(ctx, c, impl, opa)
+        if c.get('history'):
+            continue
         (ns_, nd_) = meta_budget(c)
         if ns_ or nd_:
             metamorphic(ctx, c, impl, opa, ns_, nd_, rng)
+        if not c.get('malformed'):
+            long_lived(ctx, c, opa, rng, lines, checks)
     if exe is not None and ctx.model_ok:
         try:
             outs = common.ocaml_run(exe, lines)
